@@ -44,7 +44,7 @@ def cancellable_variant():
 
 class Cancellable(Unit):
     name = "cancellable"; driver = "k1_cancellable"; cfg = "shim17"; handler = "cancellable"
-    maxruns = {"quick": 4000, "thorough": 60000}
+    maxruns = {"quick": 2500, "thorough": 60000}
     nrandom = {"quick": 300, "thorough": 3000}
     def programs(self, tier):
         progs = []
@@ -218,7 +218,7 @@ class CanaryAsan(Canary):
 class BasicSender(Unit):
     """create_basic_sender (C++20): recursive mutex + phase + recursion counter, safe / unsafe callbacks"""
     name = "basic_sender"; driver = "k1_basic_sender"; cfg = "shim20"; handler = "basicsender"
-    maxruns = {"quick": 3000, "thorough": 60000}
+    maxruns = {"quick": 2000, "thorough": 60000}
     nrandom = {"quick": 300, "thorough": 3000}
     FIRST = {"sync": "s", "inl": "i", "safe": "f", "unsafe": "u", "none": "n"}
     def programs(self, tier):
@@ -228,6 +228,8 @@ class BasicSender(Unit):
                 for st in ("stop", "nostop", "prestop"):
                     if (f, st) == ("none", "nostop"):
                         continue
+                    if (f, s2) == ("unsafe", "safe"):
+                        continue   # the user would have to disarm the unsafe callback first
                     if tier == "quick" and st == "prestop" and s2 == "safe":
                         continue
                     progs.append((f, s2, st))
@@ -321,7 +323,7 @@ def units(tier):
         pass
     try:
         from units import cancel_sor
-        us += [getattr(cancel_sor, n)() for n in (("StopOnRequest", "StopOnRequestAsan") if asan else ("StopOnRequest",)) if hasattr(cancel_sor, n)]
+        us += [getattr(cancel_sor, n)() for n in (("StopOnRequest", "StopOnRequestAsan", "StopOnRequestASan") if asan else ("StopOnRequest",)) if hasattr(cancel_sor, n)]
     except ImportError:
         pass
     us.append(Canary())
